@@ -16,7 +16,7 @@ LEVEL = "exploration"
 BUDGET_S = {"quick": 50, "thorough": 700}
 FLOOR = {"quick": 4000, "thorough": 40000}
 MUST_REACH = ("shadow_of_calls_judged", "true_answers_judged", "ambient_calls_judged", "grouped_pairs", "skip_settings_compared",
-              "member_mutations_then_requery")
+              "member_mutations_then_requery", "acl_reports_judged")
 RULE = ("related ordered pairs (top, bottom): the bottom is derived field by field from the top (same / narrowed / widened / "
         "unrelated addresses, contained or unrelated port expressions incl. lt 1 and gt 65535, flag subsets, log tokens, "
         "same or other action and protocol, named and unnamed protocol numbers), query - change group members in place - query again histories, address groups with 1..4 arbitrary members (also non-contiguous) on either "
@@ -78,10 +78,53 @@ def _members(ace):
     return {"src": [i.line for i in ace.srcaddr.items][:6], "dst": [i.line for i in ace.dstaddr.items][:6]}
 
 
+def _flat_aces(items):
+    out = []
+    for item in items:
+        if type(item).__name__ == "AceGroup":
+            out.extend(_flat_aces(item.items))
+        elif type(item).__name__ == "Ace":
+            out.append(item)
+    return out
+
+
+def _pre_report(self, args, kwargs):
+    from vcheck.checks.C11 import _canon  # pylint: disable=import-outside-toplevel
+
+    return [(_canon(a.line), sc.ace_obj_meaning(a)) for a in _flat_aces(self.items)]
+
+
+def _post_report(self, args, kwargs, result, exc, token):
+    """Every (top -> bottom) pair of the ACL-level report is a true cover in the ACL the caller holds."""
+    from vcheck.checks.C11 import _canon  # pylint: disable=import-outside-toplevel
+
+    if exc is not None or token is None:
+        return
+    _bump("acl_reports_judged")
+    aces = token
+    for top_text, bottoms in dict(result).items():
+        for bot_text in bottoms:
+            _bump("acl_report_pairs_judged")
+            ok = False
+            for i, (tline, top) in enumerate(aces):
+                if tline != _canon(top_text) or top["outside"]:
+                    continue
+                for bline, bot in aces[i + 1:]:
+                    if bline == _canon(bot_text) and not bot["outside"] and sc.truth(bot, top):
+                        ok = True
+                        break
+                if ok:
+                    break
+            if not ok and not any(m["outside"] for _, m in aces):
+                FOUND.append({"what": "the ACL-level report lists an entry as shadowed that is not covered in the caller's ACL",
+                              "detail": {"top": top_text, "bottom": bot_text, "acl": [ln for ln, _ in aces][:14]}})
+
+
 def install():
-    from cisco_acl import Ace  # pylint: disable=import-outside-toplevel
+    from cisco_acl import Ace, Acl  # pylint: disable=import-outside-toplevel
 
     taps.tap_method(Ace, "shadow_of", _post_shadow_of)
+    taps.tap_method(Acl, "shading", _post_report, pre=_pre_report)
 
 
 def _drain(case, ctx):
